@@ -15,6 +15,9 @@ RULES = {
     "O-case": "both spellings of every keyword edge give the same token type and flag update",
     "O-uniform": "words the fragment treats as one class (same kind of name / number / spelling) are lexed and handled alike",
     "O-final": "the final output (Output.format evaluated abstractly on the accepted statement) is what the property documents",
+    "O-keys": "final output: primary_key is the declared key, key columns NOT NULL, unique flags, FOREIGN KEY clauses on their columns",
+    "O-shape": "final output: documented table / column skeleton, booleans, JSON-encodable values",
+    "O-mode": "final output per mode: no mode raises, common fields equal the default mode, dialect keys only where documented",
 }
 
 
@@ -35,6 +38,7 @@ class Summary:
         self.checked = getattr(oracle, "checked", 0)
         self.n_memo_hits = ex.n_memo_hits
         self.n_split = ex.n_split_evaluations
+        self.n_final = getattr(oracle, "checked_total", 0)
 
 
 def _explore(ctx, module, label, self_attrs, build_kw):
@@ -59,7 +63,8 @@ def _record(ck, sm, only_rules=None):
         by_rule.setdefault(rule, []).append(key)
         ck.ob(rule, key, False, detail, f"fragment {sm.name}", witness=witness)
     counts = {"O-accept": sm.n_trans, "O-segment": sm.n_reductions, "O-value": sm.checked, "O-raise": sm.n_actions_evaluated,
-              "O-case": sm.n_trans, "O-uniform": sm.n_trans + sm.n_actions_evaluated, "O-final": sm.checked}
+              "O-case": sm.n_trans, "O-uniform": sm.n_trans + sm.n_actions_evaluated, "O-final": sm.checked,
+              "O-keys": sm.n_final, "O-shape": sm.n_final, "O-mode": sm.n_final}
     for rule, text in RULES.items():
         if only_rules is not None and rule not in only_rules:
             continue
@@ -75,6 +80,7 @@ def _record(ck, sm, only_rules=None):
     ck.count("action_evaluations_served_from_memo", sm.n_memo_hits)
     ck.count("per_exemplar_evaluations", sm.n_split)
     ck.count("value_checks", sm.checked)
+    ck.count("final_outputs_evaluated", sm.n_final)
     ck.analysed[f"max_lr_stack_depth[{sm.name}]"] = sm.max_depth
     ck.analysed[f"actions_reducing[{sm.name}]"] = sm.reduced_by
     for smp in sm.samples:
@@ -119,8 +125,10 @@ def run_fragments(ck, ctx, jobs):
         results = [_job(i) for i in range(len(jobs))]
     else:
         _JOBS = (ctx, jobs)
-        with mp.get_context("fork").Pool(n) as pool:
-            results = pool.map(_job, range(len(jobs)), chunksize=1)
+        # worker processes of an executor are not daemonic: a fragment may fan its own output-layer evaluations out again
+        import concurrent.futures as cf
+        with cf.ProcessPoolExecutor(max_workers=n, mp_context=mp.get_context("fork")) as pool:
+            results = list(pool.map(_job, range(len(jobs))))
     _JOBS = None
     out = []
     for j, (status, payload) in zip(jobs, results):
